@@ -482,10 +482,15 @@ func observeOutbox(res *Result, t *Task) *obObs {
 			}
 		}
 	}
-	// the activity is the last value created before the outbox write (its id is the one NewID issued first)
+	// the activity: the value whose id was returned; for a request that returned none, the stored value of an activity type
+	// (which of the freshly issued ids the activity gets is the library's business)
 	actID := o.newID
-	if actID == "" && len(o.newIDs) > 0 {
-		actID = o.newIDs[0].Res
+	if actID == "" {
+		for _, e := range o.creates {
+			if m, ok := normalise(e.Arg).(map[string]interface{}); ok && isActivityType(typeOf(m)) {
+				actID = e.ID
+			}
+		}
 	}
 	for _, e := range o.creates {
 		if e.ID == actID {
